@@ -1,4 +1,6 @@
 import Ts.Lemmas.C08
+import Ts.Lemmas.C09b
+import Ts.Props.C02Trace
 /-!
 # C09 — continuity errors exactly at counter breaks; quarantine until the next PES packet
 
@@ -11,6 +13,18 @@ new PES packet."
 `readBits p 28 4` is the `continuity_counter` field, `readBits p 27 1` the "payload present" bit of
 `adaptation_field_control`, `readBits p 9 1` the `payload_unit_start_indicator` (ISO/IEC 13818-1
 2.4.3.2; tied to the model's accessors by C12).  "packet" = any `p : Bytes` with `p.length = 188`.
+
+Layout.
+* one packet / runs of ONE filter instance: `ccerr_iff`, `run_ccerr_iff` (from `{}`),
+  `run_ccerr_iff_from` / `run_ccerr_total` (from ANY state, against the independent counter rule
+  `breaks` / `BreakAt`);
+* quarantine, one filter instance: `quarantine`, `quarantine_until_begin` (erroring packet not a unit
+  start), `quarantine_unified` / `quarantine_unified_packets` (ANY state, ANY erroring packet);
+* APPLICATION LEVEL (through the dispatcher, per consumer instance = per tag):
+  `app_ccerr_iff` … `app_ccerr_iff_push_benign`, `app_ccerr_count_trace` (errors exactly at the
+  breaks among the delivered packets of the PID), `quarantine_app` / `quarantine_app_trace` (every
+  tag of every `runApp`, hostile input included), `first_after_replacement_never_error`
+  ("first packet" is read PER CONSUMER INSTANCE: see there).
 -/
 namespace Ts.Props.C09
 open Ts Ts.Packet Ts.PesFilter Ts.Spec Ts.Spec.Protocol Ts.Lemmas.C08
@@ -199,6 +213,144 @@ theorem run_length (f f' : F) (ps : List Bytes) (evss : List (List Ev))
   obtain ⟨_, rfl⟩ := run_inv h hr
   exact runPure_length f ps
 
+/-! ### runs from ANY state, against the counter rule written as a function of the packets -/
+
+/-- the counter rule for ONE packet, given the counter of the previous packet delivered to the same
+consumer instance (if any): `true` = the counter is NOT the expected successor (`expected`) -/
+def isBreak (prev : Option Nat) (p : Bytes) : Bool :=
+  match prev with
+  | some c => decide (readBits p 28 4 ≠ expected p c)
+  | none => false
+
+/-- the counter rule over a packet list, starting from an optional previous counter: one Boolean
+per packet.  Reads the packets only (bits 27 and 28-31); knows nothing about the filter. -/
+def breaks : Option Nat → List Bytes → List Bool
+  | _, [] => []
+  | prev, p :: ps => isBreak prev p :: breaks (some (readBits p 28 4)) ps
+
+/-- index form of the same rule: packet `k` exists, a previous counter exists (`prev` for `k = 0`,
+else the counter of packet `k-1`), and packet `k`'s counter is not its expected successor -/
+def BreakAt (prev : Option Nat) (ps : List Bytes) (k : Nat) : Prop :=
+  ∃ p c, ps[k]? = some p ∧
+    (match k with
+     | 0 => prev
+     | j + 1 => ps[j]?.map (fun q => readBits q 28 4)) = some c ∧
+    readBits p 28 4 ≠ expected p c
+
+theorem isBreak_iff (prev : Option Nat) (p : Bytes) :
+    isBreak prev p = true ↔ ∃ c, prev = some c ∧ readBits p 28 4 ≠ expected p c := by
+  cases prev with
+  | none => simp [isBreak]
+  | some c => simp [isBreak]
+
+theorem breaks_length (prev : Option Nat) (ps : List Bytes) : (breaks prev ps).length = ps.length := by
+  induction ps generalizing prev with
+  | nil => rfl
+  | cons p ps ih => simp [breaks, ih]
+
+/-- the two forms of the rule agree -/
+theorem breaks_getElem?_iff (prev : Option Nat) (ps : List Bytes) (k : Nat) :
+    (breaks prev ps)[k]? = some true ↔ BreakAt prev ps k := by
+  induction ps generalizing prev k with
+  | nil => simp [breaks, BreakAt]
+  | cons p ps ih =>
+    cases k with
+    | zero =>
+      simp only [breaks, List.getElem?_cons_zero, Option.some.injEq, isBreak_iff, BreakAt]
+      constructor
+      · rintro ⟨c, h1, h2⟩; exact ⟨p, c, rfl, h1, h2⟩
+      · rintro ⟨p', c, h0, h1, h2⟩
+        subst h0; exact ⟨c, h1, h2⟩
+    | succ j =>
+      simp only [breaks, List.getElem?_cons_succ]
+      rw [ih]
+      unfold BreakAt
+      cases j with
+      | zero => simp
+      | succ i => simp
+
+/-- without a previous counter the first packet is never a break -/
+theorem not_breakAt_none_zero (ps : List Bytes) : ¬ BreakAt none ps 0 := by
+  rintro ⟨_, _, _, h, _⟩; cases h
+
+/-- with the same vocabulary, `run_ccerr_iff`'s right-hand side is `BreakAt none` -/
+theorem breakAt_none_iff (ps : List Bytes) (k : Nat) (p : Bytes) (hp : ps[k]? = some p) :
+    BreakAt none ps k ↔ ∃ j q, k = j + 1 ∧ ps[j]? = some q ∧
+      readBits p 28 4 ≠
+        (if readBits p 27 1 = 1 then (readBits q 28 4 + 1) % 16 else readBits q 28 4) := by
+  constructor
+  · rintro ⟨p', c, h1, h2, h3⟩
+    rw [hp] at h1; injection h1 with h1; subst h1
+    cases k with
+    | zero => cases h2
+    | succ j =>
+      simp only [Option.map_eq_some_iff] at h2
+      obtain ⟨q, hq, rfl⟩ := h2
+      exact ⟨j, q, rfl, hq, h3⟩
+  · rintro ⟨j, q, rfl, hq, h3⟩
+    exact ⟨p, readBits q 28 4, hp, by simp [hq], h3⟩
+
+/-- one packet, as a count: `ccErr` occurs once if the rule says "break", else not at all -/
+theorem consume_ccerr_count (f f' : F) (p : Bytes) (evs : List Ev) (h : p.length = 188)
+    (hc : consume f p = .ok (f', evs)) :
+    evs.count .ccErr = if isBreak f.cc p then 1 else 0 := by
+  have h1 := ccerr_iff f f' p evs h hc
+  have h2 := ccerr_at_most_once f f' p evs h hc
+  by_cases hb : isBreak f.cc p = true
+  · rw [if_pos hb]
+    have : 0 < evs.count .ccErr := List.count_pos_iff.mpr (h1.mpr ((isBreak_iff _ _).mp hb))
+    omega
+  · rw [if_neg hb]
+    exact List.count_eq_zero_of_not_mem (fun hm => hb ((isBreak_iff _ _).mpr (h1.mp hm)))
+
+/-- a run from ANY filter state `f`, packet by packet: the number of `ccErr` callbacks of packet `k`
+is 1 if the counter rule (started from `f.cc`) reports a break at `k`, else 0 -/
+theorem run_ccerr_counts (f f' : F) (ps : List Bytes) (evss : List (List Ev))
+    (h : ∀ p ∈ ps, p.length = 188) (hr : run f ps = .ok (f', evss)) :
+    evss.map (List.count .ccErr) = (breaks f.cc ps).map (fun b => if b then 1 else 0) := by
+  obtain ⟨-, rfl⟩ := run_inv h hr
+  clear hr
+  induction ps generalizing f with
+  | nil => rfl
+  | cons p ps ih =>
+    have hp : p.length = 188 := h p (by simp)
+    simp only [runPure, breaks, List.map_cons, List.cons.injEq]
+    refine ⟨consume_ccerr_count f _ p _ hp (consume_eq' f p hp), ?_⟩
+    have := ih (stepOf f p).1 (fun q hq => h q (List.mem_cons_of_mem _ hq))
+    rw [cc_stored f _ p _ hp (consume_eq' f p hp)] at this
+    exact this
+
+theorem sum_ite_eq_count (bs : List Bool) :
+    (bs.map (fun b => if b then 1 else 0)).sum = bs.count true := by
+  induction bs with
+  | nil => rfl
+  | cons b bs ih => cases b <;> simp [ih] <;> omega
+
+/-- **C09, run form, from ANY filter state** (generalises `run_ccerr_iff`, which is the case
+`f = {}`, see `breakAt_none_iff`): packet `k` reports a continuity error iff the counter rule started
+from `f.cc` has a break at `k`; and it reports it at most once -/
+theorem run_ccerr_iff_from (f f' : F) (ps : List Bytes) (evss : List (List Ev))
+    (h : ∀ p ∈ ps, p.length = 188) (hr : run f ps = .ok (f', evss))
+    (k : Nat) (evs : List Ev) (he : evss[k]? = some evs) :
+    (Ev.ccErr ∈ evs ↔ BreakAt f.cc ps k) ∧ evs.count .ccErr ≤ 1 := by
+  have hc := run_ccerr_counts f f' ps evss h hr
+  have hk : (evss.map (List.count .ccErr))[k]? = some (evs.count .ccErr) := by
+    rw [List.getElem?_map, he]; rfl
+  rw [hc, List.getElem?_map] at hk
+  cases hb : (breaks f.cc ps)[k]? with
+  | none => rw [hb] at hk; cases hk
+  | some b =>
+    rw [hb] at hk
+    simp only [Option.map_some, Option.some.injEq] at hk
+    rw [← breaks_getElem?_iff, hb, ← List.count_pos_iff, ← hk]
+    cases b <;> simp
+
+/-- … hence the total number of continuity errors of a run is the number of breaks -/
+theorem run_ccerr_total (f f' : F) (ps : List Bytes) (evss : List (List Ev))
+    (h : ∀ p ∈ ps, p.length = 188) (hr : run f ps = .ok (f', evss)) :
+    evss.flatten.count .ccErr = (breaks f.cc ps).count true := by
+  rw [List.count_flatten, run_ccerr_counts f f' ps evss h hr, sum_ite_eq_count]
+
 /-! ### quarantine -/
 
 /-- a continuity error on a packet that does not start a PES packet leaves no packet open, and the
@@ -296,6 +448,68 @@ theorem error_then_restart (f f' : F) (p : Bytes) (evs : List Ev) (h : p.length 
   rcases f with ⟨fc, st⟩
   cases st <;> cases usOf p <;> rcases payOf p with _ | r <;> cases hdrOf p <;> simp
 
+/-- **C09, quarantine, unified form.**  From ANY filter state, for ANY erroring packet (unit start or
+not): in the callback sequence of a run, continuation data that comes after a `ccErr` is preceded by
+a `beginPkt` lying AFTER that `ccErr`, with nothing but continuation data between that `beginPkt` and
+it.  (`pre`, `mid`, `post` are arbitrary: this speaks about every `ccErr` and every later `cont`.) -/
+theorem quarantine_unified (f f' : F) (ps : List Bytes) (evss : List (List Ev))
+    (h : ∀ p ∈ ps, p.length = 188) (hr : run f ps = .ok (f', evss))
+    (pre mid post : List Ev) (o l : Nat)
+    (hs : evss.flatten = pre ++ .ccErr :: (mid ++ .cont o l :: post)) :
+    ∃ m1 o' l' m2, mid = m1 ++ .beginPkt o' l' :: m2 ∧ ∀ x ∈ m2, isCont x := by
+  obtain ⟨-, rfl⟩ := run_inv h hr
+  have hacc := runPure_accepts f ps
+  rw [hs] at hacc
+  exact Ts.Lemmas.C09b.no_cont_after_ccErr hacc
+
+/-- … packet by packet.  From ANY filter state: if packet `k` reports a continuity error and packet
+`j ≥ k` delivers continuation data, then some packet `i` with `k ≤ i < j` has the unit-start flag and
+delivered `beginPkt` (so it carries a recognised PES header, `C08.begin_iff`).  `i = k` is the case of
+an erroring unit start; `j = k` is impossible (an erroring packet delivers no continuation data). -/
+theorem quarantine_unified_packets (f f' : F) (ps : List Bytes) (evss : List (List Ev))
+    (h : ∀ p ∈ ps, p.length = 188) (hr : run f ps = .ok (f', evss))
+    (k j : Nat) (ek ej : List Ev) (o l : Nat) (hkj : k ≤ j)
+    (hk : evss[k]? = some ek) (hj : evss[j]? = some ej)
+    (herr : Ev.ccErr ∈ ek) (hcont : Ev.cont o l ∈ ej) :
+    ∃ i q ei o' l', k ≤ i ∧ i < j ∧ ps[i]? = some q ∧ evss[i]? = some ei ∧
+      readBits q 9 1 = 1 ∧ Ev.beginPkt o' l' ∈ ei := by
+  obtain ⟨-, rfl⟩ := run_inv h hr
+  have hlen := runPure_length f ps
+  have getp : ∀ (n : Nat) (evs : List Ev), (runPure f ps).2[n]? = some evs →
+      ∃ q, ps[n]? = some q := by
+    intro n evs hn
+    have : n < ps.length := by
+      rcases Nat.lt_or_ge n ps.length with x | x
+      · exact x
+      · rw [List.getElem?_eq_none (by omega)] at hn; cases hn
+    exact ⟨ps[n], List.getElem?_eq_getElem this⟩
+  obtain ⟨pk, hpk⟩ := getp k ek hk
+  obtain ⟨pj, hpj⟩ := getp j ej hj
+  rw [runPure_getElem? f ps k pk hpk] at hk
+  rw [runPure_getElem? f ps j pj hpj] at hj
+  injection hk with hk
+  injection hj with hj
+  subst hk hj
+  have hbrk := (stepPure_ccErr_mem ..).mp herr
+  obtain ⟨-, -, -, hst, hok⟩ := (stepPure_cont_mem ..).mp hcont
+  have hne : k ≠ j := by
+    rintro rfl
+    rw [hpk] at hpj; injection hpj with hpj; subst hpj
+    rw [hbrk] at hok; cases hok
+  by_cases hbeg : (stepOf (runPure f (ps.take k)).1 pk).1.st = .started
+  · rcases (stepPure_started_iff ..).mp hbeg with ⟨hu, hp, hh⟩ | ⟨_, _, hc⟩
+    · cases hpay : payOf pk with
+      | none => rw [hpay] at hp; cases hp
+      | some r =>
+        exact ⟨k, pk, _, r.1, r.2, Nat.le_refl _, by omega, hpk, runPure_getElem? f ps k pk hpk,
+          (usOf_true_iff pk).mp hu, (stepPure_begin_mem ..).mpr ⟨hu, hpay, hh⟩⟩
+    · rw [hbrk] at hc; cases hc
+  · rw [← Ts.Lemmas.C09b.runPure_take_succ f ps k pk hpk] at hbeg
+    obtain ⟨i, q, o', l', x1, x2, x3, x4, x5⟩ :=
+      Ts.Lemmas.C09b.started_needs_begin f ps (k + 1) j (by omega) hbeg hst
+    exact ⟨i, q, _, o', l', by omega, x2, x3, runPure_getElem? f ps i q x3,
+      (usOf_true_iff q).mp x4, x5⟩
+
 /-! ### non-vacuity -/
 
 /-! concrete packets: `mkPkt b1 b3 pay` = `47 b1 00 b3 pay… ff…` (188 bytes; `b1 = 0x40` unit start;
@@ -337,5 +551,525 @@ example :
     run {} [mkPkt 0x00 0x13 [], mkPkt 0x00 0x15 [], mkPkt 0x40 0x16 pesStart]
       = .ok (⟨some 6, .started⟩, [[], [.ccErr], [.start, .beginPkt 4 184]]) := by
   decide +kernel
+
+/-- the counter rule evaluated on the second run above: breaks at packets 1, 3, 4 only -/
+example : breaks none [mkPkt 0x40 0x13 pesStart, mkPkt 0x00 0x13 [], mkPkt 0x00 0x14 [],
+      mkPkt 0x00 0x16 [], mkPkt 0x00 0x27 [183], mkPkt 0x40 0x18 pesStart, mkPkt 0x00 0x19 []]
+    = [false, true, false, true, true, false, false] := by decide +kernel
+
+/-- `run_ccerr_iff_from` / `quarantine_unified` / `quarantine_unified_packets` from a state that is NOT
+the initial one, with an erroring UNIT-START packet (the case `quarantine` excludes): stored counter
+3, packet open; the unit start has counter 5 (break), its successor 6.  The error is packet 0's
+first callback, the `beginPkt` that re-opens delivery is in packet 0 itself (`i = k = 0 < j = 1`). -/
+example :
+    run ⟨some 3, .started⟩ [mkPkt 0x40 0x15 pesStart, mkPkt 0x00 0x16 []]
+      = .ok (⟨some 6, .started⟩, [[.ccErr, .beginPkt 4 184], [.cont 4 184]])
+    ∧ breaks (some 3) [mkPkt 0x40 0x15 pesStart, mkPkt 0x00 0x16 []] = [true, false]
+    ∧ [[Ev.ccErr, .beginPkt 4 184], [.cont 4 184]].flatten
+        = [] ++ .ccErr :: ([.beginPkt 4 184] ++ .cont 4 184 :: []) := by
+  decide +kernel
+
+/-- … and the theorem applied to that run (`k = 0`, `j = 1`): it finds the unit start `i = 0` -/
+example : ∃ i q ei o' l', 0 ≤ i ∧ i < 1 ∧
+    [mkPkt 0x40 0x15 pesStart, mkPkt 0x00 0x16 []][i]? = some q ∧
+    [[Ev.ccErr, .beginPkt 4 184], [.cont 4 184]][i]? = some ei ∧
+    readBits q 9 1 = 1 ∧ Ev.beginPkt o' l' ∈ ei :=
+  quarantine_unified_packets ⟨some 3, .started⟩ ⟨some 6, .started⟩ _ _
+    (by decide +kernel) (by decide +kernel) 0 1 _ _ 4 184 (by omega) rfl rfl (by simp) (by simp)
+
+/-! ## application level: through the dispatcher, per consumer instance -/
+section app
+open Ts.Demux Ts.Lemmas.Proj
+open Ts.Lemmas.C02 (Benign)
+open Ts.Lemmas.C10 (RepPacket QuiescentH)
+
+/-- `ReportsBreaks touch τ f qs new`: `new` is what consumer `τ` (in filter state `f`) records for its
+own packets `qs`, and it contains `.esCcErr τ` exactly at the counter breaks of `qs`:
+* `new = outs.flatten` where `outs` has one block per packet of `qs`, block `k` being the events of
+  the callbacks `PesFilter.run f` makes for packet `k` (`esAll`: with packet `k`'s bytes and offset);
+* block `k` contains `.esCcErr τ` iff the counter rule (`BreakAt`: from `f.cc` for `k = 0`, else from
+  packet `k-1`; successor = `expected`) has a break at `k`, and contains it at most once;
+* in total `new` contains `.esCcErr τ` as often as `breaks` has `true`s. -/
+def ReportsBreaks (touch : Bool) (τ : Nat) (f : F) (qs : List Pk) (new : List App.Ev) : Prop :=
+  ∃ f' evss outs,
+    run f (qs.map (·.bytes)) = .ok (f', evss) ∧
+    esAll touch τ qs evss = .ok outs ∧
+    new = outs.flatten ∧ outs.length = qs.length ∧
+    (∀ k out, outs[k]? = some out →
+      (App.Ev.esCcErr τ ∈ out ↔ BreakAt f.cc (qs.map (·.bytes)) k) ∧
+      out.count (App.Ev.esCcErr τ) ≤ 1) ∧
+    new.count (App.Ev.esCcErr τ) = (breaks f.cc (qs.map (·.bytes))).count true
+
+/-- the filter-level result transported along `esAll` -/
+theorem reportsBreaks_of_view (touch : Bool) (τ : Nat) (f f' : F) (qs : List Pk)
+    (evss : List (List Ev)) (outs : List (List App.Ev))
+    (h188 : ∀ b ∈ qs.map (·.bytes), b.length = 188)
+    (hr : run f (qs.map (·.bytes)) = .ok (f', evss))
+    (ha : esAll touch τ qs evss = .ok outs) : ReportsBreaks touch τ f qs outs.flatten := by
+  have hlen : evss.length = qs.length := by
+    rw [run_length f f' _ evss h188 hr, List.length_map]
+  have hcnt := Ts.Lemmas.C09b.esAll_counts touch τ qs evss outs hlen.symm ha
+  have hol : outs.length = qs.length := by
+    have := congrArg List.length hcnt
+    simp only [List.length_map] at this
+    omega
+  refine ⟨f', evss, outs, hr, ha, rfl, hol, ?_, ?_⟩
+  · intro k out hk
+    have h1 : (outs.map (List.count (App.Ev.esCcErr τ)))[k]? = some (out.count (App.Ev.esCcErr τ)) := by
+      rw [List.getElem?_map, hk]; rfl
+    rw [hcnt, List.getElem?_map] at h1
+    cases he : evss[k]? with
+    | none => rw [he] at h1; cases h1
+    | some evs =>
+      rw [he] at h1
+      simp only [Option.map_some, Option.some.injEq] at h1
+      obtain ⟨x1, x2⟩ := run_ccerr_iff_from f f' _ evss h188 hr k evs he
+      rw [← x1, ← List.count_pos_iff, ← List.count_pos_iff, h1]
+      exact ⟨Iff.rfl, by omega⟩
+  · rw [List.count_flatten, hcnt, ← List.count_flatten, run_ccerr_total f f' _ evss h188 hr]
+
+/-- **C09 at the application level.**  `pks` is ANY interleaving of packets (any PIDs, flagged or
+not).  Hypotheses: `TagInv (t, c)`; slot `p` holds the PES handler tagged `τ` in filter state `f`;
+the unflagged PID-`p` packets are 188 bytes; along the actual run consumer `τ` is not replaced or
+removed (`hK : Keeps`; discharged from hypotheses on the input in `app_ccerr_iff_benign` /
+`app_ccerr_iff_es_and_repeated_tables`); the run succeeds.  Then what the run appends to consumer
+`τ`'s view of the trace is `new` with `ReportsBreaks … f (own p pks) new`: it contains `.esCcErr τ`
+exactly at the breaks of the counter rule over `own p pks` — the delivered (unflagged) packets of
+PID `p`, in order, whatever is interleaved with them — started from `f.cc`. -/
+theorem app_ccerr_iff (p τ : Nat) (pks : List Pk) (t : Tab App.Handler) (c : App.Ctx)
+    (f : F) (t' : Tab App.Handler) (c' : App.Ctx)
+    (hi : TagInv (t, c)) (hg : t.get p = some (.pes τ f))
+    (h188 : ∀ pk ∈ pks, pk.pid = p → pk.flagged = false → pk.bytes.length = 188)
+    (hK : Keeps p τ (t, c) pks = true)
+    (hrun : pushSpec App.sem (t, c) pks = .ok (t', c')) :
+    ∃ new, proj τ c' = proj τ c ++ new ∧ ReportsBreaks c.cfg.touch τ f (own p pks) new := by
+  obtain ⟨f', evss, outs, a1, a2, a3, _, _⟩ :=
+    C02Trace.pes_trace_is_filter_run_kept p τ pks t c f t' c' hi hg h188 hK hrun
+  refine ⟨outs.flatten, a3, reportsBreaks_of_view _ τ f f' _ evss outs ?_ a1 a2⟩
+  intro b hb
+  simp only [List.mem_map, own, List.mem_filter] at hb
+  obtain ⟨pk, ⟨hm, hp⟩, rfl⟩ := hb
+  simp only [Bool.and_eq_true, beq_iff_eq, Bool.not_eq_true'] at hp
+  exact h188 pk hm hp.1 hp.2
+
+/-- … in terms of the SHARED application trace: the number of `continuity_error` callbacks recorded
+for consumer `τ` grows by exactly the number of counter breaks among its delivered packets.
+Hypotheses as in `app_ccerr_iff`. -/
+theorem app_ccerr_count_trace (p τ : Nat) (pks : List Pk) (t : Tab App.Handler) (c : App.Ctx)
+    (f : F) (t' : Tab App.Handler) (c' : App.Ctx)
+    (hi : TagInv (t, c)) (hg : t.get p = some (.pes τ f))
+    (h188 : ∀ pk ∈ pks, pk.pid = p → pk.flagged = false → pk.bytes.length = 188)
+    (hK : Keeps p τ (t, c) pks = true)
+    (hrun : pushSpec App.sem (t, c) pks = .ok (t', c')) :
+    c'.trace.count (App.Ev.esCcErr τ) =
+      c.trace.count (App.Ev.esCcErr τ) + (breaks f.cc ((own p pks).map (·.bytes))).count true := by
+  obtain ⟨new, h1, _, _, _, _, _, _, _, _, h2⟩ := app_ccerr_iff p τ pks t c f t' c' hi hg h188 hK hrun
+  rw [← Ts.Lemmas.C09b.count_ccErr_proj, ← Ts.Lemmas.C09b.count_ccErr_proj, h1, List.count_append, h2]
+
+/-- … for `Demultiplex::push` on RAW BYTES: `pks` are the packets framed out of `buf` (188 bytes by
+construction) -/
+theorem app_ccerr_iff_push (p τ : Nat) (buf : Bytes) (base : Nat) (pks : List Pk)
+    (t : Tab App.Handler) (c : App.Ctx) (f : F) (t' : Tab App.Handler) (c' : App.Ctx)
+    (hi : TagInv (t, c)) (hg : t.get p = some (.pes τ f))
+    (hf : frame buf base = .ok pks)
+    (hK : Keeps p τ (t, c) pks = true)
+    (hrun : push App.sem (t, c) buf base = .ok (t', c')) :
+    ∃ new, proj τ c' = proj τ c ++ new ∧ ReportsBreaks c.cfg.touch τ f (own p pks) new := by
+  unfold push at hrun
+  rw [hf] at hrun
+  have hrun : pushModel App.sem (t, c) pks = .ok (t', c') := hrun
+  rw [C06.push_refines_spec] at hrun
+  exact app_ccerr_iff p τ pks t c f t' c' hi hg
+    (fun pk hm _ _ => (Ts.Lemmas.C19.frame_pk_props buf base pks hf pk hm).2.2.2.2.1) hK hrun
+
+/-- … with hypotheses on the INPUT only, general form: every packet on another PID is `Benign` for
+the table and script at the START of the run (`C02.benign_iff`: other elementary streams; flagged
+or repetition packets on quiescent PAT / PMT handlers; recorder / unregistered-PID traffic without
+scripted action) -/
+theorem app_ccerr_iff_benign (ver : Nat → Nat) (p τ : Nat) (pks : List Pk) (t : Tab App.Handler)
+    (c : App.Ctx) (f : F) (t' : Tab App.Handler) (c' : App.Ctx)
+    (hi : TagInv (t, c)) (hg : t.get p = some (.pes τ f))
+    (h188 : ∀ pk ∈ pks, pk.pid = p → pk.flagged = false → pk.bytes.length = 188)
+    (hB : ∀ pk ∈ pks, pk.pid ≠ p → Benign ver c.cfg.script t pk)
+    (hrun : pushSpec App.sem (t, c) pks = .ok (t', c')) :
+    ∃ new, proj τ c' = proj τ c ++ new ∧ ReportsBreaks c.cfg.touch τ f (own p pks) new :=
+  app_ccerr_iff p τ pks t c f t' c' hi hg h188
+    (C02Trace.keeps_of_benign_traffic ver p τ pks t c f hg hB) hrun
+
+/-- … with hypotheses on the INPUT only, written out ("any interleaving with other elementary streams
+and repeated tables"): every packet on another PID `q` finds a PES handler in slot `q` of the table
+at the start of the run, or is an unflagged repetition packet (C10 `RepPacket (ver q)`) for a PAT /
+PMT handler in slot `q` that is quiescent at that version (C10 `QuiescentH`) -/
+theorem app_ccerr_iff_es_and_repeated_tables (ver : Nat → Nat) (p τ : Nat) (pks : List Pk)
+    (t : Tab App.Handler) (c : App.Ctx) (f : F) (t' : Tab App.Handler) (c' : App.Ctx)
+    (hi : TagInv (t, c)) (hg : t.get p = some (.pes τ f))
+    (h188 : ∀ pk ∈ pks, pk.pid = p → pk.flagged = false → pk.bytes.length = 188)
+    (hO : ∀ pk ∈ pks, pk.pid ≠ p →
+      (∃ σ g, t.get pk.pid = some (.pes σ g))
+      ∨ (pk.flagged = false ∧ RepPacket (ver pk.pid) pk.bytes
+          ∧ ∃ h, t.get pk.pid = some h ∧ QuiescentH (ver pk.pid) h))
+    (hrun : pushSpec App.sem (t, c) pks = .ok (t', c')) :
+    ∃ new, proj τ c' = proj τ c ++ new ∧ ReportsBreaks c.cfg.touch τ f (own p pks) new :=
+  app_ccerr_iff p τ pks t c f t' c' hi hg h188
+    (C02Trace.keeps_of_es_and_repeated_tables ver p τ pks t c f hg hO) hrun
+
+/-- … `Demultiplex::push` on raw bytes with hypotheses on the input only -/
+theorem app_ccerr_iff_push_benign (ver : Nat → Nat) (p τ : Nat) (buf : Bytes) (base : Nat)
+    (pks : List Pk) (t : Tab App.Handler) (c : App.Ctx) (f : F) (t' : Tab App.Handler) (c' : App.Ctx)
+    (hi : TagInv (t, c)) (hg : t.get p = some (.pes τ f))
+    (hf : frame buf base = .ok pks)
+    (hB : ∀ pk ∈ pks, pk.pid ≠ p → Benign ver c.cfg.script t pk)
+    (hrun : push App.sem (t, c) buf base = .ok (t', c')) :
+    ∃ new, proj τ c' = proj τ c ++ new ∧ ReportsBreaks c.cfg.touch τ f (own p pks) new :=
+  app_ccerr_iff_push p τ buf base pks t c f t' c' hi hg hf
+    (C02Trace.keeps_of_benign_traffic ver p τ pks t c f hg hB) hrun
+
+/-! ### quarantine for every consumer instance of every run -/
+
+/-- **C09, quarantine, application level.**  For EVERY configuration, EVERY sequence of pushed byte
+strings (hostile input included) on which the application does not panic, and EVERY tag `τ`: in the
+elementary-stream callbacks attributed to `τ` (`esTrace`: all of them, oldest first, arguments
+erased), continuation data after a `ccErr` is preceded by a `beginPkt` lying after that `ccErr`,
+with nothing but continuation data in between.  No hypothesis on the input, on which packet erred
+(unit start or not), or on the filter state. -/
+theorem quarantine_app (cfg : App.Cfg) (pushes : List Bytes) (t : Tab App.Handler) (c : App.Ctx)
+    (h : App.runApp cfg pushes = .ok (t, c)) (τ : Nat) (pre mid post : List Ev) (o l : Nat)
+    (hs : esTrace τ c = pre ++ .ccErr :: (mid ++ .cont o l :: post)) :
+    ∃ m1 o' l' m2, mid = m1 ++ .beginPkt o' l' :: m2 ∧ ∀ x ∈ m2, isCont x := by
+  obtain ⟨s, hacc, _⟩ := C02Trace.es_consumer_well_nested cfg pushes t c h τ
+  rw [hs] at hacc
+  exact Ts.Lemmas.C09b.no_cont_after_ccErr hacc
+
+/-- … on the SHARED application trace itself (oldest first = `c.trace.reverse`), whatever other
+consumers' events are interleaved: between a `continuity_error` of consumer `τ` and a later
+`continue_packet` of consumer `τ` there is a `begin_packet` of consumer `τ` -/
+theorem quarantine_app_trace (cfg : App.Cfg) (pushes : List Bytes) (t : Tab App.Handler)
+    (c : App.Ctx) (h : App.runApp cfg pushes = .ok (t, c)) (τ : Nat)
+    (pre mid post : List App.Ev) (off len : Nat)
+    (hs : c.trace.reverse = pre ++ App.Ev.esCcErr τ :: (mid ++ App.Ev.esCont τ off len :: post)) :
+    ∃ bi, App.Ev.esBegin τ bi ∈ mid := by
+  have he : esTrace τ c =
+      (pre.filter (fun e => decide (tagOf e = some τ))).filterMap esShape
+        ++ .ccErr :: ((mid.filter (fun e => decide (tagOf e = some τ))).filterMap esShape
+          ++ .cont 0 0 :: (post.filter (fun e => decide (tagOf e = some τ))).filterMap esShape) := by
+    unfold esTrace proj
+    rw [hs]
+    simp [List.filter_append, List.filterMap_append, tagOf, esShape]
+  obtain ⟨m1, o', l', m2, hm, _⟩ := quarantine_app cfg pushes t c h τ _ _ _ 0 0 he
+  have hmem : Ev.beginPkt o' l' ∈
+      (mid.filter (fun e => decide (tagOf e = some τ))).filterMap esShape := by
+    rw [hm]; simp
+  rw [List.mem_filterMap] at hmem
+  obtain ⟨e, hm, hsh⟩ := hmem
+  rw [List.mem_filter] at hm
+  have htag : tagOf e = some τ := by simpa using hm.2
+  cases e <;> simp [esShape] at hsh
+  simp only [tagOf, Option.some.injEq] at htag
+  subst htag
+  exact ⟨_, hm.1⟩
+
+/-! ### "the first packet is never an error" is per consumer INSTANCE -/
+
+/-- a consumer instance that has not yet consumed a packet (`f.cc = none`; every consumed packet
+stores its counter, `cc_stored`) never reports an error for the first packet delivered to it,
+whatever that packet's counter.  Hypotheses as in `app_ccerr_iff`. -/
+theorem fresh_instance_first_never_error (p τ : Nat) (pks : List Pk) (t : Tab App.Handler)
+    (c : App.Ctx) (f : F) (t' : Tab App.Handler) (c' : App.Ctx)
+    (hi : TagInv (t, c)) (hg : t.get p = some (.pes τ f)) (hfresh : f.cc = none)
+    (h188 : ∀ pk ∈ pks, pk.pid = p → pk.flagged = false → pk.bytes.length = 188)
+    (hK : Keeps p τ (t, c) pks = true)
+    (hrun : pushSpec App.sem (t, c) pks = .ok (t', c')) :
+    ∃ f' evss outs,
+      run f ((own p pks).map (·.bytes)) = .ok (f', evss) ∧
+      esAll c.cfg.touch τ (own p pks) evss = .ok outs ∧
+      proj τ c' = proj τ c ++ outs.flatten ∧ outs.length = (own p pks).length ∧
+      ∀ out, outs[0]? = some out → App.Ev.esCcErr τ ∉ out := by
+  obtain ⟨new, h1, f', evss, outs, a1, a2, a3, a4, a5, _⟩ :=
+    app_ccerr_iff p τ pks t c f t' c' hi hg h188 hK hrun
+  subst a3
+  refine ⟨f', evss, outs, a1, a2, h1, a4, ?_⟩
+  intro out h0 hm
+  have := ((a5 0 out h0).1).mp hm
+  rw [hfresh] at this
+  exact not_breakAt_none_zero _ this
+
+/-- ONE dispatcher step on ANY packet: a PES handler that sits in the table after the step under a
+tag that did not exist before the step (`c.nextTag ≤ τ'`: a NEW consumer instance — installed by a
+PMT (re-)application or any other queued change) is in the initial filter state `{}`.  It inherits
+neither the counter nor the open/closed state of the handler it replaces. -/
+theorem replacement_installs_fresh_filter (t : Tab App.Handler) (c : App.Ctx) (pk : Pk)
+    (t' : Tab App.Handler) (c' : App.Ctx) (hi : TagInv (t, c))
+    (h : specStep App.sem (t, c) pk = .ok (t', c'))
+    (q τ' : Nat) (f' : F) (hg : t'.get q = some (.pes τ' f')) (hnew : c.nextTag ≤ τ') : f' = {} :=
+  Ts.Lemmas.C09b.specStep_new_pes_fresh t c pk t' c' hi h q τ' f' hg hnew
+
+/-- **"First packet" is per consumer INSTANCE.**  Let a dispatcher step on ANY packet `pk0` (e.g. a
+PMT section with a new version re-listing PID `p`) leave in slot `p` a PES handler whose tag `τ'` did
+not exist before the step — whatever slot `p` held before, in particular a PES handler `τ` with a
+stored counter.  Then the new handler is in state `{}`, and over ANY continuation `pks` during which
+it is kept, the first unflagged PID-`p` packet yields NO `.esCcErr τ'`, whatever its counter — also
+when that counter does not follow the last packet delivered to the replaced handler `τ` (and `τ`
+itself stays silent for ever: `C02Trace.tag_never_reissued`).
+
+READING.  C09 says "the first packet seen on a PID is never an error".  The implementation (and this
+model) keeps the counter in the consumer instance, and a table re-application REPLACES the instance
+(finding F7), so what is proved is: "the first packet seen BY A CONSUMER INSTANCE is never an
+error".  The two readings differ exactly here: a counter discontinuity across a replacement is NOT
+reported to anyone.  This is the documented reading, not a defect of the proof; see the evaluated
+witness below (`ES cc=0, PMT v1, ES cc=7`: no `esCcErr` in the whole trace; without the PMT: one). -/
+theorem first_after_replacement_never_error (p τ' : Nat) (pk0 : Pk) (pks : List Pk)
+    (t0 : Tab App.Handler) (c0 : App.Ctx) (t : Tab App.Handler) (c : App.Ctx) (f : F)
+    (t' : Tab App.Handler) (c' : App.Ctx)
+    (hi : TagInv (t0, c0))
+    (hstep : specStep App.sem (t0, c0) pk0 = .ok (t, c))
+    (hnew : c0.nextTag ≤ τ') (hg : t.get p = some (.pes τ' f))
+    (h188 : ∀ pk ∈ pks, pk.pid = p → pk.flagged = false → pk.bytes.length = 188)
+    (hK : Keeps p τ' (t, c) pks = true)
+    (hrun : pushSpec App.sem (t, c) pks = .ok (t', c')) :
+    f = {} ∧
+    ∃ f' evss outs,
+      run {} ((own p pks).map (·.bytes)) = .ok (f', evss) ∧
+      esAll c.cfg.touch τ' (own p pks) evss = .ok outs ∧
+      proj τ' c' = proj τ' c ++ outs.flatten ∧ outs.length = (own p pks).length ∧
+      ∀ out, outs[0]? = some out → App.Ev.esCcErr τ' ∉ out := by
+  have hf : f = {} := replacement_installs_fresh_filter t0 c0 pk0 t c hi hstep p τ' f hg hnew
+  subst hf
+  exact ⟨rfl, fresh_instance_first_never_error p τ' pks t c {} t' c'
+    (C02Trace.tagInv_step t0 c0 pk0 t c hi hstep).1 hg rfl h188 hK hrun⟩
+
+end app
+
+/-! ### non-vacuity, application level (kernel-evaluated) -/
+section appExamples
+open Ts.Demux Ts.Lemmas.Proj
+open Ts.Spec.PesMux (mkTp)
+open Ts.Lemmas.C02 (Benign exPat_rep exPmt2_rep)
+open Ts.Lemmas.C10 (RepPacket QuiescentH)
+
+/-- PID 0x21, no unit start, counter 5: NOT the successor of `exA0`'s counter 0 -/
+def brkA1 : Bytes := mkTp false 0x21 5 none (List.replicate 184 0x12)
+/-- PID 0x21, unit start with a PES header, counter 6 = successor of 5 -/
+def brkA2 : Bytes := mkTp true 0x21 6 none (pesHead ++ List.replicate 175 0x13)
+
+/-- the interleaving `A0 PAT B0 A1' PMT B1 A2'` (376 bytes pushed before): two elementary-stream PIDs
+0x21 (`A`, counters 0, 5, 6: ONE break) and 0x22 (`B`, counters 7, 8: none), a repeated PAT and a
+repeated PMT in between -/
+def brkPks : List Pk :=
+  [⟨exA0, 376, 0x21, false, false⟩, ⟨exPat, 564, 0, false, false⟩, ⟨exB0, 752, 0x22, false, false⟩,
+   ⟨brkA1, 940, 0x21, false, false⟩, ⟨exPmt2, 1128, 0x20, false, false⟩,
+   ⟨exB1, 1316, 0x22, false, false⟩, ⟨brkA2, 1504, 0x21, false, false⟩]
+
+/-- the same as raw bytes -/
+def brkBuf : Bytes := exA0 ++ exPat ++ exB0 ++ brkA1 ++ exPmt2 ++ exB1 ++ brkA2
+
+/-- the input-level hypothesis `hO` of `app_ccerr_iff_es_and_repeated_tables` holds for `brkPks`, for
+both elementary-stream PIDs: only table lookups are evaluated -/
+theorem brkPks_input : ∀ pk ∈ brkPks,
+    (∃ σ g, exTab0.get pk.pid = some (.pes σ g))
+    ∨ (pk.flagged = false ∧ RepPacket 0 pk.bytes
+        ∧ ∃ h, exTab0.get pk.pid = some h ∧ QuiescentH 0 h) := by
+  have g21 : exTab0.get 0x21 = some (.pes 2 {}) := by decide +kernel
+  have g22 : exTab0.get 0x22 = some (.pes 3 {}) := by decide +kernel
+  have g0 : exTab0.get 0 = some (.pat { lastVersion := some 0 } [0x20]) := by decide +kernel
+  have g20 : exTab0.get 0x20 = some (.pmt 0x20 1 { lastVersion := some 0 } [0x21, 0x22]) := by
+    decide +kernel
+  intro pk hm
+  simp only [brkPks, List.mem_cons, List.not_mem_nil, or_false] at hm
+  rcases hm with rfl | rfl | rfl | rfl | rfl | rfl | rfl
+  · exact Or.inl ⟨_, _, g21⟩
+  · exact Or.inr ⟨rfl, exPat_rep, _, g0, ⟨rfl, rfl⟩⟩
+  · exact Or.inl ⟨_, _, g22⟩
+  · exact Or.inl ⟨_, _, g21⟩
+  · exact Or.inr ⟨rfl, exPmt2_rep, _, g20, ⟨rfl, rfl⟩⟩
+  · exact Or.inl ⟨_, _, g22⟩
+  · exact Or.inl ⟨_, _, g21⟩
+
+/-- the counter rule on the two streams of `brkPks` (a function of the packets only) -/
+theorem brkPks_breaks :
+    breaks none ((own 0x21 brkPks).map (·.bytes)) = [false, true, false]
+    ∧ breaks none ((own 0x22 brkPks).map (·.bytes)) = [false, false] := by decide +kernel
+
+/-- NON-VACUITY of `app_ccerr_iff_es_and_repeated_tables` (hence of `app_ccerr_iff`): from the state
+after PAT and PMT (`exTab0`, `exCtx0`: PES filters tagged 2 / 3 on PIDs 0x21 / 0x22, both in state
+`{}`), over the interleaving `brkPks`.  The hypotheses are discharged from the INPUT
+(`brkPks_input`); only the success of the run and the packet lengths are evaluated.  The theorem
+then yields: consumer 2 records exactly ONE `esCcErr 2`, in the block of its own packet 1 (the rule
+says `[false, true, false]`), consumer 3 none. -/
+example : ∃ t' c' new2 new3,
+    pushSpec App.sem (exTab0, exCtx0) brkPks = .ok (t', c') ∧
+    proj 2 c' = proj 2 exCtx0 ++ new2 ∧ ReportsBreaks false 2 {} (own 0x21 brkPks) new2 ∧
+    proj 3 c' = proj 3 exCtx0 ++ new3 ∧ ReportsBreaks false 3 {} (own 0x22 brkPks) new3 ∧
+    new2.count (.esCcErr 2) = 1 ∧ new3.count (.esCcErr 3) = 0 := by
+  have hok : ((pushSpec App.sem (exTab0, exCtx0) brkPks).isOk
+      && brkPks.all (fun pk => pk.bytes.length == 188)) = true := by decide +kernel
+  simp only [Bool.and_eq_true, List.all_eq_true, beq_iff_eq] at hok
+  obtain ⟨hok, hlen⟩ := hok
+  cases hrun : pushSpec App.sem (exTab0, exCtx0) brkPks with
+  | panic s => rw [hrun] at hok; cases hok
+  | ok r =>
+    obtain ⟨t', c'⟩ := r
+    obtain ⟨new2, a1, a2⟩ := app_ccerr_iff_es_and_repeated_tables (fun _ => 0) 0x21 2 brkPks exTab0
+      exCtx0 {} t' c' C02Trace.exState_inv.1 (by decide +kernel) (fun pk hm _ _ => hlen pk hm)
+      (fun pk hm _ => brkPks_input pk hm) hrun
+    obtain ⟨new3, b1, b2⟩ := app_ccerr_iff_es_and_repeated_tables (fun _ => 0) 0x22 3 brkPks exTab0
+      exCtx0 {} t' c' C02Trace.exState_inv.1 (by decide +kernel) (fun pk hm _ _ => hlen pk hm)
+      (fun pk hm _ => brkPks_input pk hm) hrun
+    refine ⟨t', c', new2, new3, rfl, a1, a2, b1, b2, ?_, ?_⟩
+    · obtain ⟨_, _, _, _, _, _, _, _, h⟩ := a2
+      rw [h, show ({} : F).cc = none from rfl, brkPks_breaks.1]; decide
+    · obtain ⟨_, _, _, _, _, _, _, _, h⟩ := b2
+      rw [h, show ({} : F).cc = none from rfl, brkPks_breaks.2]; decide
+
+/-- … the same run, evaluated: consumer 2 (PID 0x21) gets `continuity_error` for its packet `A1'`, whose
+data is withheld, and a fresh `begin_packet` (no `end_packet`) for `A2'`; consumer 3 (PID 0x22) is
+unaffected by the break on the other PID; `app_ccerr_count_trace`'s count for tag 2 is 1 -/
+example : (match pushSpec App.sem (exTab0, exCtx0) brkPks with
+    | .ok (_, c) => decide (
+        proj 2 c = [.esStart 2, .esBegin 2 (exBi 389), .esCcErr 2, .esBegin 2 (exBi 1517)]
+        ∧ proj 3 c = [.esStart 3, .esBegin 3 (exBi 765), .esCont 3 1404 100]
+        ∧ c.trace.count (.esCcErr 2) = 1 ∧ c.trace.count (.esCcErr 3) = 0)
+    | .panic _ => false) = true := by decide +kernel
+
+/-- NON-VACUITY of `app_ccerr_iff_push_benign` (hence `app_ccerr_iff_push`, `app_ccerr_iff_benign`): the
+same interleaving as raw bytes handed to `Demultiplex::push`; `frame` yields exactly `brkPks` -/
+example : ∃ t' c' new2,
+    push App.sem (exTab0, exCtx0) brkBuf 376 = .ok (t', c') ∧
+    proj 2 c' = proj 2 exCtx0 ++ new2 ∧ ReportsBreaks false 2 {} (own 0x21 brkPks) new2 := by
+  have ok1 : (push App.sem (exTab0, exCtx0) brkBuf 376).isOk = true := by decide +kernel
+  obtain ⟨pks, hf, hb⟩ := C02Trace.ok_of_check (frame brkBuf 376) (fun pks => decide (pks = brkPks))
+    (by decide +kernel)
+  have hpks : pks = brkPks := of_decide_eq_true hb
+  subst hpks
+  cases hrun : push App.sem (exTab0, exCtx0) brkBuf 376 with
+  | panic s => rw [hrun] at ok1; cases ok1
+  | ok r =>
+    obtain ⟨t', c'⟩ := r
+    have hB : ∀ pk ∈ brkPks, pk.pid ≠ 0x21 → Benign (fun _ => 0) exCtx0.cfg.script exTab0 pk := by
+      intro pk hm _
+      rcases brkPks_input pk hm with h | ⟨_, hr, hq⟩
+      · exact Or.inl h
+      · exact Or.inr (Or.inl ⟨hq, Or.inr hr⟩)
+    obtain ⟨new2, a1, a2⟩ := app_ccerr_iff_push_benign (fun _ => 0) 0x21 2 brkBuf 376 _ exTab0 exCtx0
+      {} t' c' C02Trace.exState_inv.1 (by decide +kernel) hf hB hrun
+    exact ⟨t', c', new2, rfl, a1, a2⟩
+
+/-- continuation packets for PID 0x21 after `exA0 brkA1`: counter 6 without unit start (withheld), a
+unit start with a PES header (counter 7), its continuation (counter 8) -/
+def qA6 : Bytes := mkTp false 0x21 6 none (List.replicate 184 0x16)
+def qA7 : Bytes := mkTp true 0x21 7 none (pesHead ++ List.replicate 175 0x17)
+def qA8 : Bytes := mkTp false 0x21 8 none (List.replicate 184 0x18)
+
+/-- NON-VACUITY of `quarantine_app` / `quarantine_app_trace`: a whole `runApp` (two pushes) in which
+consumer 2 gets a `ccErr` and LATER continuation data.  Counters on PID 0x21: 0, 5 (break; data
+withheld), 6 (no unit start: still withheld), 7 (unit start: `begin_packet`), 8 (delivered).  The
+hypothesis `hs` of `quarantine_app` holds with `pre = [start, beginPkt]`, `mid = [beginPkt]`,
+`post = []`, and the `beginPkt` it promises is there. -/
+example : (match App.runApp { bypassCrc := true } [exPat ++ exPmt2 ++ exA0 ++ brkA1, qA6 ++ qA7 ++ qA8] with
+    | .ok (_, c) => decide (
+        esTrace 2 c = [.start, .beginPkt 0 0] ++ .ccErr :: ([.beginPkt 0 0] ++ .cont 0 0 :: [])
+        ∧ proj 2 c = [.esStart 2, .esBegin 2 (exBi 389), .esCcErr 2, .esBegin 2 (exBi 953),
+                      .esCont 2 1132 184])
+    | .panic _ => false) = true := by decide +kernel
+
+/-- … and both theorems APPLIED to that run: all hypotheses hold (evaluated: the run succeeds, the
+per-consumer callbacks and the whole shared trace have the shape `pre ++ ccErr :: (mid ++ cont :: post)`),
+and the conclusions exhibit the `begin_packet` in `mid` -/
+example : ∃ t c, App.runApp { bypassCrc := true } [exPat ++ exPmt2 ++ exA0 ++ brkA1, qA6 ++ qA7 ++ qA8]
+      = .ok (t, c) ∧
+    (∃ m1 o' l' m2, [Ev.beginPkt 0 0] = m1 ++ .beginPkt o' l' :: m2 ∧ ∀ x ∈ m2, isCont x) ∧
+    (∃ bi, App.Ev.esBegin 2 bi ∈ [App.Ev.esBegin 2 (exBi 953)]) := by
+  obtain ⟨⟨t, c⟩, h, hb⟩ := C02Trace.ok_of_check
+    (App.runApp { bypassCrc := true } [exPat ++ exPmt2 ++ exA0 ++ brkA1, qA6 ++ qA7 ++ qA8])
+    (fun tc =>
+      decide (esTrace 2 tc.2 = [.start, .beginPkt 0 0] ++ .ccErr :: ([.beginPkt 0 0] ++ .cont 0 0 :: []))
+      && decide (tc.2.trace.reverse =
+          [.construct (.byPid 0) 0, .construct (.pmt 0x20 1) 1,
+           .construct (.stream 0x20 0x1B 0x21 0x21 [] []) 2, .construct (.stream 0x20 0x0F 0x22 0x21 [] []) 3,
+           .esStart 2, .esBegin 2 (exBi 389)]
+          ++ .esCcErr 2 :: ([.esBegin 2 (exBi 953)] ++ .esCont 2 1132 184 :: [])))
+    (by decide +kernel)
+  simp only [Bool.and_eq_true, decide_eq_true_eq] at hb
+  exact ⟨t, c, h, quarantine_app _ _ t c h 2 _ _ _ 0 0 hb.1,
+    quarantine_app_trace _ _ t c h 2 _ _ _ 1132 184 hb.2⟩
+
+/-- a unit start on PID 0x21 with counter 7 -/
+def repA7 : Bytes := mkTp true 0x21 7 none (pesHead ++ List.replicate 175 0x15)
+
+def isEsCcErr : App.Ev → Bool
+  | .esCcErr _ => true
+  | _ => false
+
+/-- WITNESS for the per-instance reading (`first_after_replacement_never_error`), whole application,
+evaluated.  Run 1: PAT, PMT (version 0), ES packet on PID 0x21 with counter 0, the PMT again with
+version 1 re-listing PID 0x21 (and 0x22), ES packet on PID 0x21 with counter 7.  The PES filter of
+PID 0x21 (tag 2, stored counter 0) is replaced by a fresh instance (tag 4); the counter jump 0 → 7 is
+reported to NO ONE: there is no `esCcErr` event anywhere in the trace; consumer 4 starts with its own
+`start_stream`.  Run 2: the same WITHOUT the second PMT: consumer 2 gets `esCcErr 2`. -/
+example : (match App.runApp { bypassCrc := true } [exPat ++ exPmt2 ++ exA0 ++ exPmt2v1 ++ repA7],
+      App.runApp { bypassCrc := true } [exPat ++ exPmt2 ++ exA0 ++ repA7] with
+    | .ok (t1, c1), .ok (t2, c2) => decide (
+        tagsIn t1 = [4, 5] ∧ c1.trace.any isEsCcErr = false
+        ∧ proj 2 c1 = [.esStart 2, .esBegin 2 (exBi 389)]
+        ∧ proj 4 c1 = [.esStart 4, .esBegin 4 (exBi 765)]
+        ∧ tagsIn t2 = [2, 3]
+        ∧ proj 2 c2 = [.esStart 2, .esBegin 2 (exBi 389), .esCcErr 2, .esBegin 2 (exBi 577)])
+    | _, _ => false) = true := by decide +kernel
+
+/-- NON-VACUITY of `first_after_replacement_never_error` (and of `replacement_installs_fresh_filter`,
+`fresh_instance_first_never_error`): `(t0, c0)` = the state after PAT, PMT and the ES packet with
+counter 0 (slot 0x21 holds tag 2 with STORED COUNTER 0); `pk0` = the PMT packet with version 1; after
+that step slot 0x21 holds tag 4 ≥ `c0.nextTag` = 4; `pks` = the ES packet with counter 7.  All
+hypotheses hold (evaluated), so the theorem applies: the new filter is `{}` and the packet with
+counter 7 yields no `esCcErr 4`. -/
+example : ∃ t0 c0 t c f t' c',
+    pushSpec App.sem (exTab0, exCtx0) [⟨exA0, 376, 0x21, false, false⟩] = .ok (t0, c0) ∧
+    t0.get 0x21 = some (.pes 2 ⟨some 0, .started⟩) ∧
+    specStep App.sem (t0, c0) ⟨exPmt2v1, 564, 0x20, false, false⟩ = .ok (t, c) ∧
+    t.get 0x21 = some (.pes 4 f) ∧
+    pushSpec App.sem (t, c) [⟨repA7, 752, 0x21, false, false⟩] = .ok (t', c') ∧
+    f = {} ∧
+    ∃ f' evss outs,
+      run {} ((own 0x21 [⟨repA7, 752, 0x21, false, false⟩]).map (·.bytes)) = .ok (f', evss) ∧
+      esAll c.cfg.touch 4 (own 0x21 [⟨repA7, 752, 0x21, false, false⟩]) evss = .ok outs ∧
+      proj 4 c' = proj 4 c ++ outs.flatten ∧ outs.length = 1 ∧
+      ∀ out, outs[0]? = some out → App.Ev.esCcErr 4 ∉ out := by
+  obtain ⟨⟨t0, c0⟩, h0, hb⟩ := C02Trace.ok_of_check
+    (pushSpec App.sem (exTab0, exCtx0) [⟨exA0, 376, 0x21, false, false⟩])
+    (fun tc0 =>
+      decide (tc0.1.get 0x21 = some (.pes 2 ⟨some 0, .started⟩)) && decide (tc0.2.nextTag ≤ 4) &&
+      (match specStep App.sem tc0 ⟨exPmt2v1, 564, 0x20, false, false⟩ with
+       | .ok tc =>
+         holdsPes tc.1 0x21 4 && Keeps 0x21 4 tc [⟨repA7, 752, 0x21, false, false⟩] &&
+         (match pushSpec App.sem tc [⟨repA7, 752, 0x21, false, false⟩] with
+          | .ok _ => true
+          | .panic _ => false)
+       | .panic _ => false))
+    (by decide +kernel)
+  simp only [Bool.and_eq_true, decide_eq_true_eq] at hb
+  obtain ⟨⟨g0, hn⟩, hb⟩ := hb
+  have hi0 : TagInv (t0, c0) := (C02Trace.tagInv_pushSpec _ _ _ C02Trace.exState_inv.1 h0).1
+  have hlen : ∀ pk ∈ [(⟨repA7, 752, 0x21, false, false⟩ : Pk)], pk.pid = 0x21 → pk.flagged = false →
+      pk.bytes.length = 188 := by
+    intro pk hm _ _
+    simp only [List.mem_cons, List.not_mem_nil, or_false] at hm
+    subst hm
+    decide +kernel
+  cases h1 : specStep App.sem (t0, c0) ⟨exPmt2v1, 564, 0x20, false, false⟩ with
+  | panic s => rw [h1] at hb; cases hb
+  | ok tc =>
+    rw [h1] at hb
+    obtain ⟨t, c⟩ := tc
+    simp only [Bool.and_eq_true] at hb
+    obtain ⟨⟨hh, hK⟩, hb⟩ := hb
+    cases h2 : pushSpec App.sem (t, c) [⟨repA7, 752, 0x21, false, false⟩] with
+    | panic s => rw [h2] at hb; cases hb
+    | ok tc' =>
+      obtain ⟨t', c'⟩ := tc'
+      obtain ⟨f, hg⟩ := (holdsPes_iff t 0x21 4).mp hh
+      obtain ⟨x1, f', evss, outs, x2, x3, x4, x5, x6⟩ :=
+        first_after_replacement_never_error 0x21 4 _ _ t0 c0 t c f t' c' hi0 h1 hn hg hlen hK h2
+      exact ⟨t0, c0, t, c, f, t', c', h0, g0, h1, hg, h2, x1, f', evss, outs, x2, x3, x4, x5, x6⟩
+
+end appExamples
 
 end Ts.Props.C09
